@@ -126,3 +126,8 @@ ENTRIES = [
       "        if filename:\n            dir_path = os.path.dirname(self._filename)\n            new_filename = self._path_namer.safe_filename(filename)\n            self._filename = os.path.join(dir_path, new_filename)\n",
       "        if not filename:\n            return\n\n        new_filename = self._path_namer.safe_filename(filename)\n        dir_path = os.path.dirname(self._filename)\n        self._filename = os.path.join(dir_path, new_filename)\n", W),
 ]
+
+ENTRIES += [
+    B('regress-del-not-escaped', "                    (0 <= char_num <= 31 or char_num == 127 or\n", "                    (0 <= char_num <= 31 or\n", 'C15-D2'),
+    N('del-as-range', "                    (0 <= char_num <= 31 or char_num == 127 or\n", "                    (0 <= char_num <= 31 or 127 <= char_num <= 127 or\n"),
+]
